@@ -424,8 +424,17 @@ theorem tightHull_minimal {f : Int → Int → Int} {X Y Z Z' : IR} (h : TightHu
   have h1 := hs a b ha hb
   have h2 := hs c d hc hd
   obtain ⟨zl, zh⟩ := Z'
-  simp only [mem_mk, loLe_some, leHi_some] at hv
-  cases zl <;> cases zh <;> simp_all [mem_mk] <;> omega
+  obtain ⟨h1a, _⟩ := h1
+  obtain ⟨_, h2b⟩ := h2
+  obtain ⟨hv1, hv2⟩ := hv
+  simp only [loLe_some, leHi_some] at hv1 hv2
+  constructor
+  · cases zl with
+    | none => trivial
+    | some z => simp only [loLe_some] at h1a ⊢; omega
+  · cases zh with
+    | none => trivial
+    | some z => simp only [leHi_some] at h2b ⊢; omega
 
 section tight
 variable (X Y : IR) {xl xh yl yh : Int}
